@@ -112,6 +112,7 @@ def build_core(flavour="asan", transport="nompi", extra=()):
     srcs = core_sources(transport)
     objs = [os.path.join(odir, s.replace("/", "_")[:-2] + ".o") for s in srcs]
     if os.path.exists(stamp):
+        _touch(odir)
         return objs
     if os.path.isdir(odir):
         shutil.rmtree(odir, ignore_errors=True)
@@ -127,6 +128,14 @@ def build_core(flavour="asan", transport="nompi", extra=()):
         raise BuildError("core build failed:\n" + "\n".join(" ".join(b[2]) + "\n" + b[1] for b in bad[:3]))
     open(stamp, "w").write("ok")
     return objs
+
+
+def _touch(d):
+    """A cache hit counts as use: the collector below goes by modification time and must not take a build a running check relies on."""
+    try:
+        os.utime(d, None)
+    except OSError:
+        pass
 
 
 def _gc_builds(keep=80, min_age_s=3 * 3600):
@@ -162,6 +171,7 @@ def build_engine(name, sources, flavour="asan", transport="nompi", extra=(), lin
     bdir = os.path.join(BUILD, "bin-" + h.hexdigest()[:20])
     exe = os.path.join(bdir, name)
     if os.path.exists(exe + ".OK"):
+        _touch(bdir)
         return exe
     shutil.rmtree(bdir, ignore_errors=True)
     os.makedirs(bdir, exist_ok=True)
